@@ -3,11 +3,11 @@ SPECIFICATION TraceSpec
 CONSTANTS
   Clients = {1, 2, 3, 4}
   Keys = {1, 2, 3, 4, 5, 6}
-  Senders = {1, 2, 3, 4, 5, 6, 7, 8, 9, 10}
-  Targets = {1, 2, 3, 4, 5, 10}
+  Senders = {1, 2, 3, 4, 5, 6, 7, 8, 9, 10, 14}
+  Targets = {1, 2, 3, 4, 5, 10, 14}
   DnsPort = {2, 5, 8}
-  Allowed = {1, 2, 4, 5, 10}
-  Unsendable = {}
+  Allowed = {1, 2, 4, 5, 10, 14}
+  Unsendable = {14}
   DisarmFirst = TRUE
   T = 300
   DNST = 17000
